@@ -42,6 +42,11 @@ CHECKS = {
          'CrossHair reports Confirmed only when the whole finite domain has been visited. Honest label: the solver does bookkeeping here, not reasoning about unknown values.',
          'Trusted: CrossHair exhaustiveness accounting, the set-of-pairs model. Outside: larger graphs, longer histories.',
          'DESIGN.md section 3 C16'),
+ 'C11': ('CrossHair symbolic execution of the real index arithmetic (UNBOUNDED symbolic variable offset, symbolic index and literal sign) + solver-accounted exhaustive walk of group shapes/graphs/histories',
+         'Bounded symbolic verification: for every block shape up to the stated ranges and every binary mapping n<=4,m<=9 z3 confirms the index<->identifier bijection, order and rejection for any offset; '
+         'the other group types and the name-alignment histories are walked exhaustively over finite domains (enumerative mode, labelled as such).',
+         'Trusted: CrossHair models of int/range/list; default label formats from the API signatures. Outside: >4 dimensions, m>9, histories >3.',
+         'DESIGN.md section 3 C11'),
 }
 NA = {}
 
